@@ -405,11 +405,24 @@ func c07ws(p *Program, r *Report, rule string) {
 		})
 	}
 	if fn := p.Func("Conn.writer"); fn != nil {
-		p.forAllPaths(r, rule+".writer", fn, "returns the connection's own writer", Opts{}, "writer() returns c.msgWriter (never a pooled object)", func(pa *Path) (bool, string) {
-			if pa.End == "return" && retErr(pa) == "nil" && pa.Ret[0].Key() != "Conn.msgWriter" {
-				return false, "returns " + pa.Ret[0].Key()
+		p.forAllPaths(r, rule+".writer", fn, "returns the connection's own writer", Opts{}, "writer() returns c.msgWriter, directly or through a handle created by this call whose only writer is c.msgWriter (never a pooled object)", func(pa *Path) (bool, string) {
+			if pa.End != "return" || retErr(pa) != "nil" {
+				return true, ""
 			}
-			return true, ""
+			k := stripConvAll(pa.Ret[0]).Key()
+			if k == "Conn.msgWriter" {
+				return true, ""
+			}
+			// a fresh handle: a local allocation one of whose fields was stored c.msgWriter, and no pooled object
+			base := strings.TrimPrefix(k, "&")
+			if isLocalAllocKey(base) {
+				for _, e := range pa.Events {
+					if e.Kind == "store" && strings.HasPrefix(e.AddrK, base+".") && e.Val.Key() == "Conn.msgWriter" {
+						return true, ""
+					}
+				}
+			}
+			return false, "returns " + k
 		})
 	}
 }
